@@ -17,6 +17,13 @@ CHECKS = {
   text="For every string of <= N scalar values (N=12/18) and every template instantiation z3 decides: document(x) consumes all of x and info accepts => x is in the lenient reference language (tag match, unique attributes, legal names/chars/char refs, no '<'/'&' in values, comment/CDATA/PI syntax, declared entities, one root, XMLDecl first, reserved PI target). Listed known-finding classes are excluded by switching the corresponding reference constraint off and are re-witnessed and replayed on every run.",
   note="Bounded as C01. The xq/xe callers' rest-is-empty test is not part of this check. Trusted base as C01.",
   design="3/C02"),
+
+ "C18": dict(
+  technique="SMT (z3 QF_BV) over char predicates and name productions read from source, every scalar value / every string <= N; Kani/CBMC on the compiled classifiers over the whole char domain; counterexamples replayed",
+  category="model_checking",
+  text="(1) For each of is_char, is_name_start_char, is_name_char, is_pubid_char, is_enc_name and the *_except wrappers, z3 decides equality with the transcribed production for every Unicode scalar value (complete over the domain); Kani decides the same on the compiled functions for every char. (2) For name, nmtoken, pi_target, enc_name, ncname, qname and every string of exactly L <= N scalar values (N=8 quick / 12 thorough) z3 decides that the production consumes exactly the longest prefix in Name / Nmtoken / PITarget / EncName / NCName / QName.",
+  note="Names longer than N are outside. nom leaf/combinator models and helper::take_except as recognised structurally from source are trusted (validated concretely in C01/C02's translator validation). The first-character defect of `name`/`pi_target` is a listed known finding: those two obligations are decided against NameChar+ and the finding is re-witnessed and replayed each run.",
+  design="3/C18", engine="S-grammar + Kani"),
 }
 
 NA = {
@@ -29,7 +36,8 @@ m = {
  "hooks": {"guard": "cargo feature `verif` of xml-info (no hook commit exists yet)", "enable": "path dependency with features=[\"verif\"]",
            "baseline_off_cmd": "cd /repo && cargo test --workspace --no-fail-fast --offline", "source_commits": [], "add_only": True},
  "engines": [
-  {"name": "S-grammar", "path": "engine/sx/nomsem.py", "serves_properties": ["C01", "C02"], "kind_free_text": "symbolic executor for the nom grammars read from /repo via engine/srcdump (syn); z3 QF_BV"},
+  {"name": "S-grammar", "path": "engine/sx/nomsem.py", "serves_properties": ["C01", "C02", "C18"], "kind_free_text": "symbolic executor for the nom grammars read from /repo via engine/srcdump (syn); z3 QF_BV"},
+  {"name": "Kani", "path": "kani/", "serves_properties": ["C18"], "kind_free_text": "Kani 0.68 / CBMC 6.11 harness crate with path dependencies on /repo crates"},
   {"name": "replay", "path": "replay/", "serves_properties": ["C01", "C02"], "kind_free_text": "Rust driver with path dependencies on /repo crates: replays solver models and validates the translator"},
  ],
  "checks": [],
